@@ -318,10 +318,18 @@ func (w *worker) loop() {
 		res.Counters["violating_runs"]++
 		if w.found[v.key] {
 			res.Counters["duplicate_violations"]++
+			if harness.LeakedTotal > 300 {
+				res.Notes = append(res.Notes, "worker stopped: the generated code left goroutines blocked for ever in too many runs")
+				break
+			}
 			continue
 		}
 		w.shrinkAndRecord(prop, run, v, t.Rec)
 		if res.HarnessErr != "" || len(w.found) > 12 {
+			break
+		}
+		if harness.LeakedTotal > 300 {
+			res.Notes = append(res.Notes, "worker stopped: the generated code left goroutines blocked for ever in too many runs (each one slows every later goroutine dump)")
 			break
 		}
 	}
